@@ -108,6 +108,18 @@ func (prog *Prog) Dump(dest io.Writer) error {
 	return w.Flush()
 }
 
+// maxSectionSize bounds the element counts read from a bytecode file, so that a
+// corrupt size cannot ask for an impossible allocation.
+const maxSectionSize = 1<<31 - 1
+
+func sizeFromBuf(r *bufio.Reader) (uint64, error) {
+	m, err := uvarintFromBuf(r)
+	if err == nil && m > maxSectionSize {
+		err = fmt.Errorf("size too large: %d", m)
+	}
+	return m, err
+}
+
 func (prog *Prog) Load(src io.Reader) (err error) {
 	r := bufio.NewReaderSize(src, 4096)
 
@@ -133,7 +145,7 @@ func (prog *Prog) Load(src io.Reader) (err error) {
 		return fmt.Errorf("invalid bcode minor version")
 	}
 
-	m, err = uvarintFromBuf(r)
+	m, err = sizeFromBuf(r)
 	if err != nil {
 		return fmt.Errorf("name size: %w", err)
 	}
@@ -144,7 +156,7 @@ func (prog *Prog) Load(src io.Reader) (err error) {
 	}
 	prog.name = string(p)
 
-	m, err = uvarintFromBuf(r)
+	m, err = sizeFromBuf(r)
 	if err != nil {
 		return fmt.Errorf("code size: %w", err)
 	}
@@ -157,7 +169,7 @@ func (prog *Prog) Load(src io.Reader) (err error) {
 		return fmt.Errorf("code too short")
 	}
 
-	m, err = uvarintFromBuf(r)
+	m, err = sizeFromBuf(r)
 	if err != nil {
 		return fmt.Errorf("constants size: %w", err)
 	}
@@ -169,7 +181,7 @@ func (prog *Prog) Load(src io.Reader) (err error) {
 		}
 	}
 
-	m, err = uvarintFromBuf(r)
+	m, err = sizeFromBuf(r)
 	if err != nil {
 		return fmt.Errorf("positions size: %w", err)
 	}
@@ -182,7 +194,7 @@ func (prog *Prog) Load(src io.Reader) (err error) {
 		prog.positions[i] = int(x)
 	}
 
-	m, err = uvarintFromBuf(r)
+	m, err = sizeFromBuf(r)
 	if err != nil {
 		return fmt.Errorf("lfs size: %w", err)
 	}
